@@ -5,6 +5,7 @@ EXECUTING the real `ECOS.parse_result` (harness/translate.py → `Generated/Ecos
 -/
 import SageoptModel.Model.SolveGlue
 import SageoptModel.Generated.EcosTable
+import SageoptModel.Lemmas.SolveGlue
 
 namespace Sageopt.Props.C09
 open Sageopt Sageopt.Glue
@@ -51,4 +52,89 @@ theorem sense_flip : reported .min .solved .pcost = .fin false ∧ reported .max
 /-- the cone types the ECOS interface accepts -/
 theorem ecos_cones : Generated.EcosTable.allowedCones = ["+", "0", "S", "e"] := by decide
 
+/-! ### the value store over histories of solves -/
+
+/-- a Problem's variable map is consistent: a scalar id is paired with one column only (mirrored entries of a
+    symmetric Variable repeat the same pair) -/
+def Consistent (s : Solve) : Prop :=
+  ∀ v ∈ s.vars, ∀ w ∈ s.vars, ∀ p ∈ v.ids.zip v.cols, ∀ q ∈ w.ids.zip w.cols, p.1 = q.1 → p.2 = q.2
+
+/-- one solve overwrites every component of every Variable of its Problem -/
+theorem applySolve_spec (k : Nat) (st : Store) (s : Solve) (hc : Consistent s)
+    (v : PVar) (hv : v ∈ s.vars) (p : Nat × Int) (hp : p ∈ v.ids.zip v.cols) :
+    (applySolve k st s).get p.1 = cellFor k s.loads p.2 := by
+  rw [applySolve_eq_writeAll]
+  apply writeAll_get
+  · intro q hq hqp
+    obtain ⟨w, hw, hqw⟩ := Solve.mem_writes.1 hq
+    rw [hc w hw v hv q hqw p hp hqp]
+  · exact Or.inr ⟨p, Solve.mem_writes.2 ⟨v, hv, hp⟩, rfl⟩
+
+/-- … and touches nothing else -/
+theorem applySolve_frame (k : Nat) (st : Store) (s : Solve) (id : Nat)
+    (h : ∀ v ∈ s.vars, id ∉ v.ids.take v.cols.length) : (applySolve k st s).get id = st.get id := by
+  rw [applySolve_eq_writeAll]
+  apply writeAll_frame
+  intro p hp hpid
+  obtain ⟨v, hv, hpv⟩ := Solve.mem_writes.1 hp
+  exact h v hv (hpid ▸ fst_mem_take_of_mem_zip hpv)
+
+/-- SOLVE HISTORY: after ANY finite sequence of solves (any problems sharing Variables, any outcomes including
+    forced failures) followed by a solve `s` of a Problem P: if values were loaded, every component of every
+    Variable of P holds the entry of THIS solve's solution at its column (0 for non-participating components);
+    otherwise every component is NaN — no value of an earlier solve survives. -/
+theorem solve_history (hist : List Solve) (s : Solve) (hc : Consistent s)
+    (v : PVar) (hv : v ∈ s.vars) (p : Nat × Int) (hp : p ∈ v.ids.zip v.cols) :
+    (runSolves (hist ++ [s])).get p.1 = cellFor hist.length s.loads p.2 := by
+  rw [runSolves_snoc]
+  exact applySolve_spec _ _ s hc v hv p hp
+
+theorem no_stale_values (hist : List Solve) (s : Solve) (hc : Consistent s) (hfail : s.loads = false)
+    (v : PVar) (hv : v ∈ s.vars) (id : Nat) (hid : id ∈ v.ids.take v.cols.length) :
+    (runSolves (hist ++ [s])).get id = .nan := by
+  obtain ⟨col, hcol⟩ := exists_mem_zip_of_mem_take hid
+  have := solve_history hist s hc v hv (id, col) hcol
+  rw [this, hfail]
+  rfl
+
+theorem nonparticipating_zero (hist : List Solve) (s : Solve) (hc : Consistent s) (hl : s.loads = true)
+    (v : PVar) (hv : v ∈ s.vars) (p : Nat × Int) (hp : p ∈ v.ids.zip v.cols) (hneg : p.2 < 0) :
+    (runSolves (hist ++ [s])).get p.1 = .zero := by
+  rw [solve_history hist s hc v hv p hp, hl]
+  simp [cellFor, hneg]
+
+/-! ### non-vacuity: three solves over two Variables sharing ids -/
+
+/-- Variable `x` = ids 0,1,2 (component 2 does not participate);
+    symmetric Variable `y` = ids 3,4,4,5 (the mirrored entry repeats the pair (4, 1)) -/
+def exX : PVar := ⟨[0, 1, 2], [0, 1, -1]⟩
+def exY : PVar := ⟨[3, 4, 4, 5], [2, 3, 3, 4]⟩
+/-- in another Problem the same `y` sits at other columns -/
+def exY' : PVar := ⟨[3, 4, 4, 5], [0, 1, 1, -1]⟩
+
+def exS0 : Solve := ⟨[exX, exY], true⟩      -- Problem P (x and y), loads
+def exS1 : Solve := ⟨[exY'], false⟩         -- Problem Q (y only), forced failure
+def exS2 : Solve := ⟨[exX, exY], true⟩      -- Problem P again, loads
+
+example : Consistent exS0 ∧ Consistent exS1 ∧ Consistent exS2 := by
+  unfold Consistent; decide
+
+/-- after the failed solve of Q: `y` is NaN everywhere (nothing of solve 0 survives in it), `x` keeps solve 0 -/
+example : (List.range 6).map (runSolves [exS0, exS1]).get =
+    [.x 0 0, .x 0 1, .zero, .nan, .nan, .nan] := by decide
+
+/-- after the third solve every component holds the entry of solve 2 (or 0 for the non-participating one) -/
+example : (List.range 6).map (runSolves ([exS0, exS1] ++ [exS2])).get =
+    [.x 2 0, .x 2 1, .zero, .x 2 2, .x 2 3, .x 2 4] := by decide
+
+/-- the history theorem instantiated at the example (hypotheses are satisfiable) -/
+example : (runSolves ([exS0, exS1] ++ [exS2])).get 4 = .x 2 3 :=
+  solve_history [exS0, exS1] exS2 (by unfold Consistent; decide) exY (by simp [exS2]) (4, 3) (by decide)
+
+/-- an INCONSISTENT map really breaks the specification: the hypothesis `Consistent` is needed -/
+example : ¬ Consistent ⟨[⟨[0, 0], [0, 1]⟩], true⟩ ∧
+    (applySolve 0 [] ⟨[⟨[0, 0], [0, 1]⟩], true⟩).get 0 ≠ cellFor 0 true 0 := by
+  unfold Consistent; decide
+
 end Sageopt.Props.C09
+
